@@ -326,7 +326,7 @@ class Check:
         self.findings = [f for f in load_findings() if f["property"] == pid and f["kind"] == "finding"]
         self.tlc_runs: list[dict] = []
         self.exhaustive = False
-        self.max_report = 5
+        self.max_report = int(os.environ.get("VERIF_MAX_REPORT", "5"))
 
     @property
     def thorough(self):
